@@ -4,6 +4,7 @@ import (
 	"fmt"
 	"strconv"
 	"strings"
+	"unicode/utf8"
 
 	"github.com/gobuffalo/plush/v5/ast"
 	"github.com/gobuffalo/plush/v5/lexer"
@@ -869,7 +870,12 @@ func syntheticNameDepth(exp ast.Expression, depth int) string {
 		name = e.String()
 	}
 	if len(name) > 64 {
-		name = name[:61] + "..."
+		cut := 61
+		for cut > 0 && !utf8.RuneStart(name[cut]) {
+			// not in the middle of a character
+			cut--
+		}
+		name = name[:cut] + "..."
 	}
 	return name
 }
